@@ -295,6 +295,7 @@ Proof.
       * apply in_zone_src; assumption.
       * apply in_zone_stg. eapply under_trans; [exact SU | apply below_under; exact A2].
     + apply in_zone_src; assumption.
+    + apply in_zone_src; assumption.
   - destruct (o_kind o) eqn:K; try discriminate; apply orb_true_iff in A as [A|A];
       solve [eapply commit_new_zone; eassumption | eapply commit_version_zone; eassumption].
   - destruct (o_kind o) eqn:K; try discriminate. unfold purge_main in A. apply andb_true_iff in A as [V A].
